@@ -39,7 +39,13 @@ def canon_line(line: str) -> str:
 
 def run_driver(text: str, timeout: int = 600) -> dict:
     """Feeds scenario text to the extracted model; returns {scenario id: [canonical lines]}."""
-    p = subprocess.run([DRIVER], input=text, capture_output=True, text=True, timeout=timeout)
+    def _big_stack():
+        import resource
+        try:
+            resource.setrlimit(resource.RLIMIT_STACK, (resource.RLIM_INFINITY, resource.RLIM_INFINITY))
+        except (ValueError, OSError):
+            pass
+    p = subprocess.run([DRIVER], input=text, capture_output=True, text=True, timeout=timeout, preexec_fn=_big_stack)
     if p.returncode != 0:
         raise RuntimeError("model driver failed: rc=%s stderr=%s" % (p.returncode, p.stderr[-2000:]))
     res, cur, cid = {}, None, None
